@@ -87,23 +87,29 @@ def run(F, R, tier):
                                        and (p in roots or "pcap" in p.lower()), "pcap I/O", link_ops=False)
     np_ = F.fn(PCAP + "Pcap::next_packet")
     if R.anchor("Pcap::next_packet", np_):
-        B = M.Body(np_)
-        # every read_exact result goes through `?` (Try::branch) before anything else uses the buffer
+        # next_packet and the private helpers of pcap.rs it reads records through (`read_record<R: Read>`)
+        cgx = M.CallGraph(F)
+        np_fns = [q for q in sorted(cgx.reachable_from([PCAP + "Pcap::next_packet"])) if q in F.fns and F.fns[q]["file"] == np_["file"] and F.fns[q].get("mir")
+                  and (q == PCAP + "Pcap::next_packet" or not q.startswith("<"))]
         n_read = 0
-        for bi, b in enumerate(B.blocks):
+        for q in np_fns:
+          B = M.Body(F.fns[q])
+          for bi, b in enumerate(B.blocks):
             t = b["term"]
-            if t["k"] == "call" and (t.get("callee") or "").endswith("read_exact") and not b.get("cleanup"):
+            if t["k"] == "call" and (t.get("callee") or t.get("decl") or "").endswith("read_exact") and not b.get("cleanup"):
                 n_read += 1
                 nxt = B.blocks[t["t"]]["term"] if t.get("t") is not None else {}
                 ok = nxt.get("k") == "call" and (nxt.get("callee") or "").endswith("Try>::branch")
-                R.ob("read-exact-propagated", "next_packet read_exact #%d" % n_read, ok, "result is consumed by `?`", F.loc(np_, t.get("line")))
-        R.floor("read_exact calls in next_packet", n_read, 4)
+                R.ob("read-exact-propagated", "next_packet read_exact #%d" % n_read, ok, "result is consumed by `?`", F.loc(F.fns[q], t.get("line")))
+        # two reads per record (header, payload), once per handle kind or once in a shared generic helper
+        R.floor("read_exact calls in next_packet", n_read, 2)
+        np_body = H.body_inl(F, np_, keep=("read_exact", "from_bytes", "new"))
         # allocation of caplen bytes is dominated by the caplen > snaplen rejection
-        txt = H.render(H.body_of(np_))
+        txt = H.render(np_body)
         n_guard = txt.count("if (packet_header.caplen > self.header.borrow().snaplen) {return v1::Err(")
-        n_alloc = len([x for x in H.walk(H.body_of(np_)) if x.get("k") == "call" and x.get("callee") == "std::vec::from_elem"])
+        n_alloc = len([x for x in H.walk(np_body) if x.get("k") == "call" and x.get("callee") == "std::vec::from_elem"])
         order_ok = True
-        for br in H.walk(H.body_of(np_)):
+        for br in H.walk(np_body):
             if br.get("k") == "block":
                 seq = []
                 for s in br.get("stmts", []):
@@ -114,11 +120,11 @@ def run(F, R, tier):
                         seq.append("alloc")
                 if "alloc" in seq and seq[:1] != ["guard"]:
                     order_ok = False
-        R.ob("caplen-bounded", "vec![0; caplen] only after caplen <= snaplen", n_guard == n_alloc == 2 and order_ok,
+        R.ob("caplen-bounded", "vec![0; caplen] only after caplen <= snaplen", n_guard == n_alloc and n_alloc >= 1 and order_ok,
              "%d guards, %d allocations" % (n_guard, n_alloc), F.loc(np_))
         # ---- (e) the two reader branches are clones --------------------------------------------------------------------
         arms = []
-        for m in H.walk(H.body_of(np_)):
+        for m in H.walk(np_body):
             if m.get("k") == "match" and not H.is_try(m) and "file" in H.render(m["scrut"]):
                 for a in m["arms"]:
                     vs = {H.last(v) for v in H.pat_variants(a["pat"])}
@@ -136,7 +142,7 @@ def run(F, R, tier):
         g = F.fn(fn)
         if not R.anchor(fn, g):
             continue
-        for c in H.walk(H.body_of(g)):
+        for c in H.walk(H.body_inl(F, g, keep=("read_exact", "read", "read_to_end", "from_bytes"))):
             if c.get("k") != "mcall":
                 continue
             cal = c.get("decl") or c.get("callee") or ""
@@ -145,7 +151,7 @@ def run(F, R, tier):
             elif cal.endswith(("Read::read", "Read::read_to_end", "Read::read_vectored", "BufRead::fill_buf")) or (c["m"] == "read" and "Read" in (c.get("decl") or "")):
                 R.ob("fixed-size-reads-exact", "%s: %s" % (H.last(fn), H.render(c)[:80]), False,
                      "a fixed-size pcap structure is read with %s, which may deliver fewer bytes than the structure needs" % c["m"], F.loc(g, c.get("line")))
-    R.ob("fixed-size-reads-exact", "global header, record headers and payloads are read with read_exact", n_exact >= 6, "%d read_exact calls" % n_exact)
+    R.ob("fixed-size-reads-exact", "global header, record headers and payloads are read with read_exact", n_exact >= 3, "%d read_exact calls" % n_exact)
     # ---- (d) EOF mapping siblings ------------------------------------------------------------------------------------------
     def eof_handling(fn):
         g = F.fn(fn)
